@@ -185,6 +185,7 @@ func (h *lcH) spawn(role string, f func() error) *lcCall {
 		} else {
 			c.ret = 0
 		}
+		dastard.VerifNote(fmt.Sprintf("note.ret%d", c.ret)) // the return of the call, in trace order
 		close(c.done)
 	}()
 	<-reg
@@ -479,6 +480,12 @@ func c10Gen(r *Rng, tier string, idx int) (string, func() string) {
 		second := b2i(r.Chance(40))
 		return fmt.Sprintf("src %s opens 0 sched stopDecided second %d", kd, second),
 			func() string { return lcStopDecided(kd, idx, second == 1) }
+	case c < 40:
+		kd := []string{"err", "err", "tri", "sim"}[r.Intn(4)]
+		rounds := r.Range(1, 3)
+		ss := r.U64() % 1000000
+		return fmt.Sprintf("src %s opens 0 sched rpc rounds %d sseed %d", kd, rounds, ss),
+			func() string { return lcRPC(kd, idx, rounds, NewRng(ss)) }
 	case c < 82:
 		k := r.Range(1, 4)
 		rounds := r.Range(1, 2)
